@@ -23,25 +23,33 @@ proof fn ticket_ext(a: Ticket, b: Ticket) requires a.bytes() == b.bytes() ensure
 { assert(a.sha@ =~= b.sha@); assert(a.sha == b.sha); }
 
 impl Ticket {
-    // ASSUMED (unit A: O-A-encode): the text form of the hash
+    // ASSUMED here, PROVED in unit A: the contract text is shared/human_readable.spec
     #[verifier::external_body]
-    fn human_readable(&self) -> (r: String) ensures r@ == enc62_sha(self.bytes()) { unimplemented!() }
+    fn human_readable(&self) -> (res: String)
+//@ include shared/human_readable.spec
+    { unimplemented!() }
 }
 
 // stands for TicketFactory{dig: Sha256}; `acc` = bytes fed so far
-struct TicketFactory { acc: Ghost<Seq<u8>> }
+struct TicketFactory { ghost_acc: Ghost<Seq<u8>> }
 impl TicketFactory {
-    // ASSUMED (unit A: O-A-new)
+    spec fn acc(&self) -> Seq<u8> { self.ghost_acc@ }
+    // The contract texts below are the files under shared/ -- the very text unit A proves on the real ticket.rs.
     #[verifier::external_body]
-    fn new() -> (r: TicketFactory) ensures r.acc@ == Seq::<u8>::empty() { unimplemented!() }
-    // ASSUMED (unit A: O-A-result)
+    fn new() -> (res: TicketFactory)
+//@ include shared/new.spec
+    { unimplemented!() }
     #[verifier::external_body]
-    fn result(&mut self) -> (r: Ticket) ensures r.bytes() == sha256(old(self).acc@) { unimplemented!() }
-    // ASSUMED (unit A: O-A-from-file): the digest input is exactly the file's bytes
+    fn result(&mut self) -> (res: Ticket)
+//@ include shared/result.spec
+    { unimplemented!() }
     #[verifier::external_body]
-    fn from_file<FSType: System>(file_system: &FSType, path : &str, Tracked(w): Tracked<&mut World>) -> (r: Result<TicketFactory, ReadWriteError>)
-        ensures *final(w) == *old(w),
-            r matches Ok(f) ==> old(w).files.contains_key(path@) && f.acc@ == old(w).files[path@].content,
+    fn input_ticket(&mut self, input: Ticket)
+//@ include shared/input_ticket.spec
+    { unimplemented!() }
+    #[verifier::external_body]
+    fn from_file<FSType: System>(file_system: &FSType, path : &str, Tracked(w): Tracked<&mut World>) -> (res: Result<TicketFactory, ReadWriteError>)
+//@ include shared/from_file.spec
     { unimplemented!() }
     // ASSUMED: directory hashing (outside every claim: targets are regular files)
     #[verifier::external_body]
